@@ -85,12 +85,18 @@ CHECKS = {
         "assumptions": ["Limit 0 means all; window is [from, to)", "the server never stamps timestamps on Set"],
     },
     "C08": {
-        "pkg": "query", "run": "^TestC08", "level": "exploration",
-        "shards": {"quick": 1, "thorough": 16},
+        "units": [
+            {"pkg": "query", "run": "^TestC08", "shards": {"quick": 1, "thorough": 16}},
+            # mutations overlapping the FIRST build of a field index (vsched plan holds the builder inside BuildEquality); judged at quiescence only
+            {"pkg": "query", "run": "^TestC08(BuildRace|WitnessIndexBuildRace)", "overlay": "vsched", "tags": ["verifvsched"], "shards": {"quick": 4, "thorough": 16}},
+        ],
+        "level": "exploration",
         "technique": "differential/metamorphic property-based testing (route forcing via an OR{SubGroups:[G]} wrapper, checked with gateway.PlanFilter) plus an independent three-valued evaluator",
         "level_text": "Random contents / filter-tree / request / mutation tuples: the same stream request is answered through the bucket route and the forced scan route and "
                       "the two streams must be equal up to ties, including labels and treasures; both must match an independent evaluator of the documented canonical "
-                      "equality whenever the documents decide every record. Open route divergences are excluded from the main generator and kept as witness facets.",
+                      "equality whenever the documents decide every record. Open route divergences are excluded from the main generator and kept as witness facets. "
+                      "A second unit (schedule-perturbation overlay) lets 1-3 writers delete/replace/patch/insert records while the first query on a field builds its index, "
+                      "the builder being held inside the build by a generated plan; after quiescence both routes and the evaluator must agree on generated queries on that field.",
         "level_note": "The wrapper OR{SubGroups:[G]} is assumed semantically identical to G. Time-valued body fields and IS_EMPTY on non-msgpack bodies are left undecided by the evaluator; "
                       "cases whose page cuts a tie class are skipped (~6%). GetByIndexStreamFromMany and value indexes are not covered.",
         "assumptions": ["From/Limit are pre-filter index positions and MaxResults is post-filter (proto/docs)"],
